@@ -240,20 +240,18 @@ Proof.
   - split. apply Z.div_pos; lia. apply Z.div_lt_upper_bound; lia.
 Qed.
 
-Lemma hex_digit_safe : forall n, 0 <= n < 16 -> safe (hex_digit n) = true.
-Proof.
-  intros n H.
-  replace n with (Z.of_nat (Z.to_nat n)) by lia.
-  assert (Z.to_nat n < 16)%nat as C by lia. revert C. generalize (Z.to_nat n). intros m C.
-  do 16 (destruct m as [|m]; [reflexivity|]). lia.
-Qed.
+Lemma hex_digit_range : forall n, 0 <= n < 16 -> 48 <= hex_digit n <= 102.
+Proof. intros n H. unfold hex_digit. destruct (n <? 10) eqn:E; lia. Qed.
+
+Lemma hex_digit_ok : forall n, 0 <= n < 16 -> cp_ok (hex_digit n) = true.
+Proof. intros n H. pose proof (hex_digit_range n H). unfold cp_ok. lia. Qed.
 
 Lemma hex_enc_ok : forall bs, bytes_ok bs = true -> str_ok (hex_enc bs) = true.
 Proof.
   induction bs as [|b r IH]; simpl; intro H; auto.
   apply andb_true_iff in H. destruct H as [Hb Hr]. unfold byte_ok in Hb.
   assert (0 <= b < 256) by lia.
-  rewrite !hex_digit_safe, IH; auto.
+  rewrite !hex_digit_ok, IH; auto.
   - apply Z.mod_pos_bound. lia.
   - split. apply Z.div_pos; lia. apply Z.div_lt_upper_bound; lia.
 Qed.
@@ -358,23 +356,105 @@ Proof. induction n; intros; cbn [repeat List.app]; auto. rewrite lex_ws; auto. Q
 Lemma lex_nl : forall i r, lex LIdle (nl i ++ r) = lex LIdle r.
 Proof. intros. unfold nl. cbn [List.app]. rewrite lex_ws by reflexivity. apply lex_spaces. Qed.
 
-Lemma safe_not_quote : forall c, safe c = true -> (c =? 34) = false.
-Proof. intros c H. unfold safe in H. lia. Qed.
+(* \uXXXX escapes *)
+Lemma hex4_rt : forall n, 0 <= n < 65536 ->
+  hex4_val (hex_digit (n / 4096)) (hex_digit ((n / 256) mod 16)) (hex_digit ((n / 16) mod 16)) (hex_digit (n mod 16))
+  = Some n.
+Proof.
+  intros n H. unfold hex4_val.
+  rewrite !hex_digit_val.
+  - f_equal. Z.div_mod_to_equations. lia.
+  - apply Z.mod_pos_bound. lia.
+  - apply Z.mod_pos_bound. lia.
+  - apply Z.mod_pos_bound. lia.
+  - split. apply Z.div_pos; lia. apply Z.div_lt_upper_bound; lia.
+Qed.
+
+(* one unfolding of the lexer at a \u escape, stated once so that no tactic has to
+   normalise [lex] on a long literal list *)
+Lemma lex_str_u : forall acc h1 h2 h3 h4 r2,
+  lex (LStr acc) (92 :: 117 :: h1 :: h2 :: h3 :: h4 :: r2) =
+  match hex4_val h1 h2 h3 h4 with
+  | Some n =>
+      if is_high n then
+        match r2 with
+        | b1 :: b2 :: l1 :: l2 :: l3 :: l4 :: r3 =>
+            if (b1 =? 92) && (b2 =? 117) then
+              match hex4_val l1 l2 l3 l4 with
+              | Some m =>
+                  if is_low m
+                  then lex (LStr (65536 + (n - 55296) * 1024 + (m - 56320) :: acc)) r3
+                  else lex (LStr (n :: acc)) r2
+              | None => lex (LStr (n :: acc)) r2
+              end
+            else lex (LStr (n :: acc)) r2
+        | _ => lex (LStr (n :: acc)) r2
+        end
+      else lex (LStr (n :: acc)) r2
+  | None => None
+  end.
+Proof. intros. reflexivity. Qed.
+
+Lemma lex_uesc_plain : forall n acc rest, 0 <= n < 65536 -> is_high n = false ->
+  lex (LStr acc) (uesc n ++ rest) = lex (LStr (n :: acc)) rest.
+Proof.
+  intros n acc rest Hn Hh. unfold uesc, hex4. cbn [List.app].
+  rewrite lex_str_u. rewrite hex4_rt by auto. rewrite Hh. reflexivity.
+Qed.
+
+Lemma lex_uesc_pair : forall hi lo acc rest, is_high hi = true -> is_low lo = true ->
+  lex (LStr acc) (uesc hi ++ uesc lo ++ rest) =
+  lex (LStr (65536 + (hi - 55296) * 1024 + (lo - 56320) :: acc)) rest.
+Proof.
+  intros hi lo acc rest Hh Hl. unfold uesc, hex4. cbn [List.app].
+  rewrite lex_str_u.
+  assert (0 <= hi < 65536) as Bh by (unfold is_high in Hh; lia).
+  assert (0 <= lo < 65536) as Bl by (unfold is_low in Hl; lia).
+  rewrite (hex4_rt hi Bh). rewrite Hh.
+  change ((92 =? 92) && (117 =? 117)) with true. cbv iota.
+  rewrite (hex4_rt lo Bl). rewrite Hl. reflexivity.
+Qed.
+
+Lemma lex_str_raw : forall c acc r, (c =? 34) = false -> (c =? 92) = false -> (32 <=? c) = true ->
+  lex (LStr acc) (c :: r) = lex (LStr (c :: acc)) r.
+Proof. intros c acc r H1 H2 H3. cbn [lex]. rewrite H1, H2, H3. reflexivity. Qed.
+
+Lemma lex_esc_char : forall c acc rest, cp_ok c = true ->
+  lex (LStr acc) (esc_char c ++ rest) = lex (LStr (c :: acc)) rest.
+Proof.
+  intros c acc rest H. unfold cp_ok in H. unfold esc_char.
+  destruct (c =? 34) eqn:E1. { assert (c = 34) by lia. subst. reflexivity. }
+  destruct (c =? 92) eqn:E2. { assert (c = 92) by lia. subst. reflexivity. }
+  destruct (c =? 10) eqn:E3. { assert (c = 10) by lia. subst. reflexivity. }
+  destruct (c =? 13) eqn:E4. { assert (c = 13) by lia. subst. reflexivity. }
+  destruct (c =? 9) eqn:E5. { assert (c = 9) by lia. subst. reflexivity. }
+  destruct (c =? 8) eqn:E6. { assert (c = 8) by lia. subst. reflexivity. }
+  destruct (c =? 12) eqn:E7. { assert (c = 12) by lia. subst. reflexivity. }
+  destruct ((32 <=? c) && (c <=? 126)) eqn:E8.
+  { cbn [List.app]. apply lex_str_raw; auto. lia. }
+  destruct (c <? 65536) eqn:E9.
+  { apply lex_uesc_plain. lia. unfold is_high. lia. }
+  rewrite <- app_assoc. rewrite lex_uesc_pair.
+  - f_equal. f_equal. f_equal. Z.div_mod_to_equations. lia.
+  - unfold is_high. Z.div_mod_to_equations. lia.
+  - unfold is_low. Z.div_mod_to_equations. lia.
+Qed.
 
 Lemma lex_str_body : forall s acc r, str_ok s = true ->
-  lex (LStr acc) (s ++ 34 :: r) = pre [TStr (List.rev acc ++ s)] (lex LIdle r).
+  lex (LStr acc) (esc_str s ++ 34 :: r) = pre [TStr (List.rev acc ++ s)] (lex LIdle r).
 Proof.
   induction s as [|c s IH]; intros acc r H.
-  - cbn [List.app]. cbn [lex]. rewrite Z.eqb_refl. rewrite app_nil_r. reflexivity.
+  - cbn [esc_str flat_map List.app]. cbn [lex]. rewrite Z.eqb_refl. rewrite app_nil_r. reflexivity.
   - simpl in H. apply andb_true_iff in H. destruct H as [Hc Hs].
-    cbn [List.app]. cbn [lex]. rewrite (safe_not_quote c Hc), Hc. rewrite IH; auto.
+    unfold esc_str. cbn [flat_map]. rewrite <- app_assoc. rewrite lex_esc_char by auto.
+    fold (esc_str s). rewrite IH; auto.
     simpl List.rev. rewrite <- app_assoc. reflexivity.
 Qed.
 
 Lemma lex_quote : forall s r, str_ok s = true -> lex LIdle (quote s ++ r) = pre [TStr s] (lex LIdle r).
 Proof.
   intros s r H. unfold quote. cbn [List.app]. rewrite <- app_assoc. cbn [List.app].
-  change (lex LIdle (34 :: s ++ 34 :: r)) with (lex (LStr []) (s ++ 34 :: r)).
+  change (lex LIdle (34 :: esc_str s ++ 34 :: r)) with (lex (LStr []) (esc_str s ++ 34 :: r)).
   rewrite lex_str_body; auto.
 Qed.
 
